@@ -172,6 +172,70 @@ def r5(ctx, prog):
         raise AnalysisBroken('expected >=4 calculateNextLocalTimeSec overrides, found %d' % n)
 
 
+def r7(ctx, prog):
+    ctx.rule('C20.R7', 'A10 rounding direction ("the delay is never shorter than the distance"): in the timer interval of activeTimer every truncating step (integer division, '
+             'duration_cast to a coarser unit) is applied to a subtracted term, never to the positive total — truncating the total makes the wait up to one unit too short; and '
+             'A7: the calendar\'s refresh loops over watch_alarms_ reach nothing that erases from watch_alarms_', floor=2)
+    f = prog.fn1(AL + '::activeTimer')
+    ini = [st for st in f.calls() if st.get('fn') == 'initialize' and 'obj' in st and (f.field_of(st['obj']) or '').endswith('sp_timer_ev_')]
+    if not ini:
+        raise AnalysisBroken('activeTimer: sp_timer_ev_->initialize not found')
+    found = []
+    seen = set()
+
+    def walk(e, pol, depth=0):
+        x = f.s(f.strip_casts(e))
+        if x is None or depth > 10:
+            return
+        if x['k'] == 'BinaryOperator' and x.get('op') in ('+', '-'):
+            walk(x['ch'][0], pol, depth + 1)
+            walk(x['ch'][1], pol if x['op'] == '+' else -pol, depth + 1)
+        elif x['k'] == 'BinaryOperator' and x.get('op') == '/':
+            found.append((x, pol, 'integer division'))
+            walk(x['ch'][0], pol, depth + 1)
+        elif x['k'] == 'BinaryOperator' and x.get('op') == '*':
+            walk(x['ch'][0], pol, depth + 1)
+            walk(x['ch'][1], pol, depth + 1)
+        elif x['k'] in q.CALL_KINDS and 'duration_cast' in (x.get('callee') or ''):
+            found.append((x, pol, 'duration_cast'))
+            for a in x.get('args', ()):
+                walk(a, pol, depth + 1)
+        elif x['k'] in ('CXXConstructExpr', 'CXXTemporaryObjectExpr', 'CXXFunctionalCastExpr', 'MaterializeTemporaryExpr', 'CXXBindTemporaryExpr', 'ExprWithCleanups') or x['k'] in q.CALL_KINDS:
+            for c in (x.get('args') or x.get('ch') or ()):
+                walk(c, pol, depth + 1)
+        elif x['k'] == 'DeclRefExpr' and x.get('dk') == 'Var' and x['d'] not in seen:
+            seen.add(x['d'])
+            for d in rd.local_defs(f, x['d']):
+                if d['rhs'] is not None:
+                    walk(d['rhs'], pol, depth + 1)
+    walk(ini[0]['args'][0], 1)
+    bad = [(x, why) for x, pol, why in found if pol > 0]
+    ctx.ob('C20.R7', '%s|rounds-up' % f.name, not bad, 'truncating steps only under a minus sign (%d found): the wait is rounded up' % len(found) if not bad else
+           'the wait is truncated by a %s applied to the positive total at %s: the timer can be armed up to one unit short of the wall-clock distance and fire before the instant'
+           % (bad[0][1], f.loc(bad[0][0]['i'])), where=f.loc(bad[0][0]['i'] if bad else ini[0]['i']))
+    from tbxlint import reent
+    n = 0
+    for g in prog.funcs.values():
+        if not g.name.startswith('tbox::alarm::WorkdayCalendar::') or g.parent_usr:
+            continue
+        for l in reent.range_loops(g):
+            if not (g.field_of(l['range']) or '').endswith('watch_alarms_'):
+                continue
+            n += 1
+            hit = None
+            for st in g.calls():
+                if st['i'] in set(g.walk(l['body'])):
+                    for t in reent.callee_funcs(prog, st):
+                        r = reent.mutates_field(prog, t, 'watch_alarms_')
+                        if r:
+                            hit = '%s() -> %s' % (st.get('fn'), r)
+            ctx.ob('C20.R7', '%s|live-iteration' % g.name, hit is None, 'the loop body cannot reach a mutation of watch_alarms_' if hit is None else
+                   'the range-for over watch_alarms_ calls %s: an alarm that unsubscribes while the calendar refreshes its subscribers shifts the elements and the next '
+                   'alarm is skipped (it keeps the old calendar\'s instant)' % hit, where=g.loc(l['i']))
+    if n < 2:
+        raise AnalysisBroken('expected the two refresh loops of WorkdayCalendar, found %d' % n)
+
+
 # (function, days that must be offered strictly after "now"): one full cycle of the configuration's period
 SCANS = {'tbox::alarm::WeeklyAlarm::calculateNextLocalTimeSec': (7, 'a week: every weekday of the mask'),
          'tbox::alarm::WorkdayAlarm::calculateNextLocalTimeSec': (366, 'a year of calendar days')}
@@ -229,4 +293,5 @@ def run(ctx):
     ctx.guard(r4, ctx, prog)
     ctx.guard(r5, ctx, prog)
     ctx.guard(r6, ctx, prog)
+    ctx.guard(r7, ctx, prog)
     return prog
